@@ -47,6 +47,13 @@ MUTANTS = [
     ("c12-build-skips-canonicalisation", "C12", "caught", [(BU, CHECKSUM_STEP, "        let _ = self.parts.qualifiers.try_get_typed::<Checksum>()?;\n")]),
     ("c12-split-at-first-colon", "C12", "caught", [(WK, "hash.rsplit_once(':')", "hash.split_once(':')")]),
     ("c12-ascii-only-lowercase", "C12", "caught", [(WK, "            let algorithm = copy_as_lowercase(algorithm);\n", "            let algorithm = SmallString::from(algorithm.to_ascii_lowercase());\n")]),
+    ("c12-sort-skipped-above-16-entries", "C12", "caught", [(WK, SORT, "        if algorithms.len() <= 16 {\n            algorithms.sort_unstable_by(|a, b| a.0.cmp(&b.0));\n        }\n")]),
+    ("c12-sort-compares-6-byte-prefix", "C12", "caught", [(WK, SORT, "        algorithms.sort_unstable_by(|a, b| {\n            let (x, y) = (a.0.as_bytes(), b.0.as_bytes());\n            x[..x.len().min(6)].cmp(&y[..y.len().min(6)])\n        });\n")]),
+    ("c12-long-hex-keeps-case", "C12", "caught", [(WK, "            v.extend(bytes.chars().map(|c| c.to_ascii_lowercase()));\n", "            if bytes.len() > 128 {\n                v.push_str(&bytes);\n            } else {\n                v.extend(bytes.chars().map(|c| c.to_ascii_lowercase()));\n            }\n")]),
+    ("c12-insert-raw-ascii-lowercase-only", "C12", "caught", [(WK, "            self.algorithms.insert(copy_as_lowercase(algorithm), Cow::Owned(value));\n", "            self.algorithms.insert(SmallString::from(algorithm.to_ascii_lowercase()), Cow::Owned(value));\n")]),
+    ("c12-build-canonicalises-only-lists", "C12", "caught", [(BU, "        if let Some(checksum) = self.parts.qualifiers.try_get_typed::<Checksum>()? {\n", "        let single = self.parts.qualifiers.get(Checksum::KEY).is_some_and(|v| !v.contains(','));\n        if let Some(checksum) = self.parts.qualifiers.try_get_typed::<Checksum>()?.filter(|_| !single) {\n")]),
+    ("c12-long-algorithm-not-lowercased", "C12", "caught", [(WK, "            self.algorithms.insert(copy_as_lowercase(algorithm), Cow::Owned(value));\n", "            let key = if algorithm.len() > 8 { SmallString::from(algorithm) } else { copy_as_lowercase(algorithm) };\n            self.algorithms.insert(key, Cow::Owned(value));\n")]),
+    ("c12-sort-by-uppercased-name", "C12", "caught", [(WK, SORT, "        algorithms.sort_unstable_by_key(|a| a.0.to_uppercase());\n")]),
     ("c12-duplicate-check-dropped", "C12", "silent", [(WK, "            if algorithms.insert(algorithm, Cow::Borrowed(bytes)).is_some() {\n                // Duplicate algorithm.\n                return Err(ParseError::InvalidQualifier);\n            }\n", "            algorithms.insert(algorithm, Cow::Borrowed(bytes));\n")]),
     ("c12-stable-sort", "C12", "silent", [(WK, SORT, "        algorithms.sort_by(|a, b| a.0.cmp(&b.0));\n")]),
     ("c12-sort-by-key", "C12", "silent", [(WK, SORT, "        algorithms.sort_by_key(|a| a.0.clone());\n")]),
@@ -75,7 +82,7 @@ MUTANTS = [
     ("c16-serialize-as-newtype", "C16", "caught", [(FO, "            serializer.collect_str(self)\n", "            serializer.serialize_newtype_struct(\"Purl\", &self.to_string())\n")]),
     ("c16-serialize-as-seq-of-one", "C16", "caught", [(FO, "            serializer.collect_str(self)\n", "            use serde::ser::SerializeSeq;\n            let mut seq = serializer.serialize_seq(Some(1))?;\n            seq.serialize_element(&self.to_string())?;\n            seq.end()\n")]),
     ("c16-deserialize-trims", "C16", "caught", [(PA, "            GenericPurl::<T>::from_str(v).map_err(Error::custom)\n", "            GenericPurl::<T>::from_str(v.trim()).map_err(Error::custom)\n")]),
-    ("c16-deserialize-accepts-seq", "C16", "caught", [(PA, "            deserializer.deserialize_str(PurlVisitor(PhantomData))\n", "            deserializer.deserialize_any(PurlVisitor(PhantomData))\n"), (PA, "        fn visit_str<E>(self, v: &str) -> Result<Self::Value, E>\n", "        fn visit_seq<A>(self, mut seq: A) -> Result<Self::Value, A::Error>\n        where\n            A: serde::de::SeqAccess<'_>,\n        {\n            let first: Option<String> = seq.next_element()?;\n            while seq.next_element::<serde::de::IgnoredAny>()?.is_some() {}\n            GenericPurl::<T>::from_str(&first.unwrap_or_default()).map_err(Error::custom)\n        }\n\n        fn visit_str<E>(self, v: &str) -> Result<Self::Value, E>\n")]),
+    ("c16-deserialize-accepts-seq", "C16", "caught", [(PA, "            deserializer.deserialize_str(PurlVisitor(PhantomData))\n", "            deserializer.deserialize_any(PurlVisitor(PhantomData))\n"), (PA, "    impl<T> Visitor<'_> for PurlVisitor<T>\n", "    impl<'de, T> Visitor<'de> for PurlVisitor<T>\n"), (PA, "        fn visit_str<E>(self, v: &str) -> Result<Self::Value, E>\n", "        fn visit_seq<A>(self, mut seq: A) -> Result<Self::Value, A::Error>\n        where\n            A: serde::de::SeqAccess<'de>,\n        {\n            let first: Option<String> = seq.next_element()?;\n            while seq.next_element::<serde::de::IgnoredAny>()?.is_some() {}\n            GenericPurl::<T>::from_str(&first.unwrap_or_default()).map_err(Error::custom)\n        }\n\n        fn visit_str<E>(self, v: &str) -> Result<Self::Value, E>\n")]),
     ("c16-deserialize-lowercases", "C16", "caught", [(PA, "            GenericPurl::<T>::from_str(v).map_err(Error::custom)\n", "            GenericPurl::<T>::from_str(&v.to_ascii_lowercase()).map_err(Error::custom)\n")]),
     ("c16-serialize-drops-subpath-when-long", "C16", "caught", [(FO, "            serializer.collect_str(self)\n", "            let text = self.to_string();\n            match text.split_once('#') {\n                Some((head, _)) if text.len() > 64 => serializer.serialize_str(head),\n                _ => serializer.serialize_str(&text),\n            }\n")]),
     ("c16-serialize-via-to-string", "C16", "silent", [(FO, "            serializer.collect_str(self)\n", "            serializer.serialize_str(&self.to_string())\n")]),
